@@ -190,6 +190,39 @@ pub fn run(out: &mut Out, seed: u64, n_seq: usize, n_par: usize, threads: usize)
             out.finding("impure", k.e, &shown, &k.ph, &format!("the outcome of the same call made alone: {}", alone[*i]), &format!("{} (thread {}, round {}, {} threads busy with long calls)", canon, t + 1, r, threads), json!({"phase": "heavy-concurrent"}));
         }
     }
+    // (e) duels: the same expression with two different placeholders, two threads on each, in a tight loop - whatever the library
+    // might share between calls of one function (a memo of its last argument, a scratch buffer) is written by both at the same instant
+    let mut groups: std::collections::BTreeMap<(&str, &str), Vec<usize>> = std::collections::BTreeMap::new();
+    for (i, k) in pool.iter().enumerate() { groups.entry((k.e, k.expr.as_str())).or_default().push(i); }
+    let mut duels: Vec<(usize, usize)> = Vec::new();
+    for idx in groups.values() { for w in idx.windows(2).take(4) { if iso[w[0]] != iso[w[1]] { duels.push((w[0], w[1])); } } }
+    let its = (n_par / 8).clamp(100, 400);
+    for (a, b) in &duels {
+        let bad: Vec<Vec<(usize, String, usize)>> = std::thread::scope(|sc| {
+            let hs: Vec<_> = (0..4).map(|t| {
+                let (pool, iso) = (&pool, &iso);
+                let i = if t % 2 == 0 { *a } else { *b };
+                sc.spawn(move || {
+                    let mut v = Vec::new();
+                    for r in 0..its {
+                        let k = &pool[i];
+                        let (o, _) = call(k.e, &k.expr, &k.ph);
+                        if o.canon() != iso[i] && v.len() < 3 { v.push((i, o.canon(), r)); }
+                    }
+                    v
+                })
+            }).collect();
+            hs.into_iter().map(|h| h.join().unwrap()).collect()
+        });
+        out.stats.calls += (4 * its) as u64;
+        for (t, v) in bad.iter().enumerate() {
+            for (i, canon, r) in v {
+                let k = &pool[*i];
+                out.finding("impure", k.e, &k.expr, &k.ph, &format!("the outcome of an isolated first-time evaluation: {}", iso[*i]),
+                            &format!("{} (thread {}, iteration {}, while two threads evaluate the same expression with {})", canon, t + 1, r, pool[if *i == *a { *b } else { *a }].ph.show()), json!({"phase": "duel"}));
+            }
+        }
+    }
     for k in 0..pool.len() { let key = h64(&(pool[k].e, &pool[k].expr, pool[k].ph.canon())); out.stats.distinct.insert(key); out.stats.nontrivial.insert(key); }
     out.stats.samples.push(json!({"keys": pool.len(), "example_key": {"e": pool[1].e, "expr": pool[1].expr, "ph": pool[1].ph.show()}, "sequential_calls": n_seq, "concurrent_calls": per * threads, "threads": threads}));
 }
